@@ -314,7 +314,7 @@ class Body:
         """
         if seen is None:
             seen = set()
-        if depth > 40:
+        if depth > 120:
             return ('deep',)
         if isinstance(x, int):
             return self._origin_local(x, depth, seen)
